@@ -447,8 +447,8 @@ func (m *Machine) rangeIter(x value, t types.Type) iter {
 	switch x := x.(type) {
 	case *Map:
 		it := &mapIter{m: m, mp: x}
-		if x != nil && m.RecordEvents && m.trackMap[x] {
-			m.events = append(m.events, Event{G: m.curG, Kind: "rd", Obj: fmt.Sprintf("map%p", x), Site: m.site()})
+		if x != nil && m.RecordEvents && m.trackRoots != nil {
+			m.events = append(m.events, Event{G: m.curG, Kind: "rd", Obj: fmt.Sprintf("map%p", x), Site: m.site(), M: x})
 		}
 		if x != nil {
 			for i := range x.keys {
@@ -535,8 +535,8 @@ func (m *Machine) mapFind(mp *Map, key value) int {
 	if mp == nil {
 		return -1
 	}
-	if m.RecordEvents && m.trackMap[mp] {
-		m.events = append(m.events, Event{G: m.curG, Kind: "rd", Obj: fmt.Sprintf("map%p", mp), Site: m.site()})
+	if m.RecordEvents && m.trackRoots != nil {
+		m.events = append(m.events, Event{G: m.curG, Kind: "rd", Obj: fmt.Sprintf("map%p", mp), Site: m.site(), M: mp})
 	}
 	if h, ok := hashKey(key); ok {
 		if mp.symKeys == 0 {
@@ -590,8 +590,8 @@ func (m *Machine) mapSet(mp *Map, key, val value) {
 	if m.freezeOn && m.frozenM[mp] {
 		m.violation("write-to-frozen", "map update on a map that existed before vxFreeze")
 	}
-	if m.RecordEvents && m.trackMap[mp] {
-		m.events = append(m.events, Event{G: m.curG, Kind: "wr", Obj: fmt.Sprintf("map%p", mp), Site: m.site()})
+	if m.RecordEvents && m.trackRoots != nil {
+		m.events = append(m.events, Event{G: m.curG, Kind: "wr", Obj: fmt.Sprintf("map%p", mp), Site: m.site(), M: mp})
 	}
 	i := m.mapFind(mp, key)
 	if i >= 0 {
